@@ -69,6 +69,13 @@ func c19(r *Report) propMeta {
 		r.Gate("fetch-uses-result-only-if-query-ok", f, CallEff(use, "field:ResultABCIQuery.Response"), []Cond{nilErrOf("yoda.abciQuery")}, GateOpts{})
 	}
 
+	// the retry loop makes exactly max-try attempts (seed C19-13 turned it 1-based but kept `<`: one attempt fewer, and
+	// with max-try 1 no attempt at all, so (nil, nil) comes back)
+	r.LoopTrips("query-makes-max-try-attempts", abci, []string{"field:Context.maxTry"})
+	// the REST executor reports success only for an OK response (seed C19-14 consulted resp.Ok only when the body failed
+	// to decode: a gateway error document then counts as exit code 0 with empty output)
+	r.Gate("rest-success-needs-ok-response", "yoda/executor.RestExec.Exec", RetValEff(0, "field:externalExecutionResponse.Version"), []Cond{{Op: "BOOL", A: []string{"field:Response.Ok"}, Want: true, Desc: "resp.Ok"}}, GateOpts{MinSites: 2})
+
 	r.Rule("C19.R9", "E20 event agreement: what yoda reads from events is emitted")
 	r.EventAgreement("events", 1, "yoda.")
 
